@@ -409,11 +409,32 @@ def run_check(prop, cfg, tier, seed, workdir):
     if violations:
         # minimal: shortest case line first
         violations.sort(key=lambda x: len(x[1]))
-        for j, (i, l, sv) in enumerate(violations[:3]):
+        # prefer cases that fail again when re-run alone in a fresh process (a failure that needs earlier builds on
+        # the same thread — hidden state — would not replay from its own line)
+        def alone(l):
+            try:
+                rc_, line_, _ = sh([FQV, "rerun"] + case_pre(l).split(" "))
+                line_ = line_.strip().split("\n")[-1]
+                pr = subprocess.run([FQMODEL, prop], input=line_ + "\n", stdout=subprocess.PIPE, text=True, timeout=300)
+                return pr.stdout.strip().split("\t")[0] != "ok"
+            except Exception:
+                return False
+        iso = []
+        for v_ in violations[:12]:
+            if alone(v_[1]):
+                iso.append(v_)
+                if len(iso) == 3:
+                    break
+        chosen = iso if iso else violations[:3]
+        for j, (i, l, sv) in enumerate(chosen):
             p = write_replay(prop, tier, seed, j, {
                 "property": prop, "kind": "spec-verdict-false-on-implementation-output",
                 "case": case_pre(l), "implementation_result": short(l.split(" => ")[1] if " => " in l else "", 400),
-                "spec_verdict": sv, "replay_cmd": "./check --replay <this file>"})
+                "spec_verdict": sv, "replay_cmd": "./check --replay <this file>",
+                "fails_when_rerun_alone": bool(iso),
+                **({} if iso else {"note": "this case passes when re-run alone in a fresh process: the failure depends on what "
+                    "the same thread built before it (hidden state surviving between builds); the run's case order is in "
+                    + os.path.join(workdir, "cases*.txt")})})
             replay_paths.append(p)
         print("VIOLATION property=%s replay=%s" % (prop, replay_paths[0]))
         rc = 1
